@@ -333,7 +333,8 @@ CLAIMS = {
              'b2a/a2b and validated by correspondence); TreeState model validated by correspondence (rows, links, '
              'cookie paths after every click)',
         technique='Lean 4 proof (arithmetic + induction for the codec; refinement to a set-of-paths spec for the state) '
-                  '+ correspondence',
+                  '+ correspondence; the state model applyDiff is proved equal to TreeTag.apply_diff translated from the '
+                  'source statement by statement on every run (gen_apply_diff_is_model, gen_apply_diff_is_click)',
         ref='DESIGN.md §5 C20'),
     'C06': dict(
         text='Lean 4 theorems about the parser model (hand-compiled scanners, tokeniser, attribute grammar, tag roles, '
